@@ -225,7 +225,10 @@ func evalMulti(srcs []msrc, mode string, b int) (out outcome, vs []viol) {
 		}
 	}
 	if errors.Is(out.err, http.ErrBodyReadAfterClose) {
-		vs = append(vs, viol{T + path + "-ErrBodyReadAfterClose-not-EOF", fmt.Sprintf("a source that ends with http.ErrBodyReadAfterClose is at its end; the stream must go on to the next source and yield the concatenation %q", want)})
+		// The property does not say how a source ending in
+		// http.ErrBodyReadAfterClose is to be treated (Read maps it to
+		// end-of-source per a code comment, WriteTo surfaces it): either is
+		// accepted; only the delivered bytes are checked.
 		if !isPrefix(out.data, want) {
 			vs = append(vs, viol{T + path + "-bytes-not-concatenation", fmt.Sprintf("want a prefix of %q", want)})
 		}
